@@ -278,7 +278,7 @@ def _enc_scalar(k, v):
         except UnicodeEncodeError as e:
             raise RefRangeError(str(e))
     if k == 'ascii':
-        if not isinstance(v, str) or any(ord(c) > 127 for c in v):
+        if not isinstance(v, str) or not v.isascii():
             raise RefRangeError('not ascii: %r' % (v,))
         return v.encode('ascii')
     if k == 'blob':
